@@ -14,4 +14,6 @@ type Convergen interface {
 	CopyB(*SrcB) *DstB
 	// :style arg
 	IntoB(SrcB) DstB
+	// CopyN: fields of defined slice types.
+	CopyN(*SrcN) *DstN
 }
